@@ -170,6 +170,8 @@ func TestVerifC19Handler(t *testing.T) {
 				impl = fmt.Sprintf("http:%d:%s", w.Code, strings.ReplaceAll(c19Clip(body), " ", "_"))
 			}
 		}()
+		// drop the model again: name resolution scans every manifest, so keeping them makes the run quadratic
+		createRequest(t, s.DeleteHandler, api.DeleteRequest{Model: name})
 		out.Case(line, impl)
 		if impl == "panic:template-cut" {
 			out.L2("template-panic", line, "deleteNode else-list: POST /api/chat panics in template.Execute: interface conversion: parse.Node is nil, not *parse.ListNode")
